@@ -132,6 +132,7 @@ func runC02(r *engine.Run) {
 		return
 	}
 	r.Rule = "E1, three complete products. A (shapes): MType{2..5} x 16 FCtrl flag combinations x FOptsLen 0..15 x FOpts form{opaque,commands} x FPort{absent,0,1,255} x FRMPayload length alphabet (quick: 19 lengths straddling CMAC block boundaries; thorough: 0..248) x MAC version{1.0,1.1}, one parameter tuple. B (parameters) on 6 shapes x 2 directions: version x ACK x ConfFCnt(5) x txDR(3) x txCh(3) x FCnt(5) x DevAddr(3) x FNwkSIntKey(3) x SNwkSIntKey(3) with all 32 carried-MIC bit flips. C (bit walks): every single bit of FCnt, ConfFCnt, DevAddr (32 each), both keys (128 each), txDR, txCh (8 each) and every bit of the serialised frame on 2 shapes x 2 directions x 2 versions x ACK. Oracle: independent B0/B1 + RFC 4493 CMAC (mc/spec/crypto.go). Non-trivial: Set succeeded and the MIC was compared with the specification value; distinct by construction."
+	cryptoHistory(r)
 	r.Assume("AES is crypto/aes (trusted); CMAC is re-implemented from RFC 4493 and self-tested on the RFC vectors at start-up")
 	r.Assume("keys/counters/addresses: small distinguishing alphabets plus complete single-bit walks; a mutant special-casing one particular 32-bit or 128-bit value is outside the bound")
 	r.Assume("frames whose serialisation exceeds 255 bytes (not transmittable) are executed but not judged")
